@@ -602,6 +602,19 @@ func c17d(c *Ctx) {
 		}
 		c.Check(n >= 1, "parser/font-cache-filled-once", "-", fmt.Sprintf("%d stores to Parser.fonts outside construction", n), "no lazy store to Parser.fonts found")
 	}
+	// ... nor deletes from one (delete is a builtin call, not a map update)
+	for _, fn := range c.W.FuncsOf("emitter") {
+		if isTestFunc(c.W, fn) {
+			continue
+		}
+		for _, ci := range callsIn(fn) {
+			if calleeName(ci) != "builtin:delete" {
+				continue
+			}
+			m := ci.Common().Args[0]
+			c.Check(localMap(m, fn), fmt.Sprintf("%s/map-delete[%s]@%d", c.W.FuncKey(fn), pretty(c.term(fn, m)), c.T(fn).callOrd[ci]), c.W.Pos(ci.Pos()), "the map deleted from was created in this function", "an emitter function deletes from a map handed in from outside ("+pretty(c.term(fn, m))+"): state leaks between scripts / statements")
+		}
+	}
 	// parser: fields written while parsing
 	allowed := map[string]string{
 		"curToken": "token window", "peekToken": "token window", "peek2Token": "token window", "peek3Token": "token window", "peek4Token": "token window",
